@@ -60,6 +60,7 @@ class FabricThread(hosts.SimThread):
   """SimThread whose join models a service thread that is blocked in queue.get(): joining it runs the
   real body from inside the loop; if the body would block again the join would never return."""
   join_blocked = []
+  at_loop_test = False
 
   def join(self, timeout=None):
     if not self.started:
@@ -68,7 +69,10 @@ class FabricThread(hosts.SimThread):
       return
     name = getattr(self.target, "__name__", "")
     try:
-      if name in ("thread_runner_fifo", "thread_runner_lifo", "run_event"):
+      if name in ("thread_runner_fifo", "thread_runner_lifo") and FabricThread.at_loop_test:
+        # the delivery thread has just finished an iteration and is about to test its run flag (it is not waiting in get())
+        self.target(*self.args)
+      elif name in ("thread_runner_fifo", "thread_runner_lifo", "run_event"):
         self.target(AlreadyInside(self.args[0]), *self.args[1:])
       else:
         self.target(*self.args, **self.kwargs)
@@ -83,6 +87,7 @@ def install(capacity=None):
   ao.Thread = FabricThread
   ao.PriorityQueue = NBPriorityQueue
   FabricThread.join_blocked = []
+  FabricThread.at_loop_test = False
   return hsm, ao
 
 
@@ -93,6 +98,8 @@ def pump_thread(t, m):
   ev = CountingEvent(m)
   try:
     t.target(ev, *t.args[1:])
+    if ev.n >= 0:
+      t.ended = True          # the body left its loop although its run flag was still up: the thread is gone
   except WouldBlock:
     pass
   return m - max(ev.n, 0) if ev.n >= 0 else m
